@@ -19,13 +19,39 @@ class MaterialParser(DataParser):
             ret["parameters"] = p.parameters
         return syntax_node.SyntaxNode("data", ret)
 
-    @_("isotope_fractions", "number_sequence", "isotope_hybrid_fractions")
+    @_(
+        "isotope_fractions",
+        "number_sequence",
+        "isotope_hybrid_fractions",
+        "isotope_mixed_fractions",
+    )
     def isotopes(self, p):
         return p[0]
 
-    @_("number_sequence isotope_fraction", "isotope_hybrid_fractions isotope_fraction")
+    @_(
+        "number_sequence isotope_fraction",
+        "isotope_hybrid_fractions isotope_fraction",
+        "isotope_hybrid_fractions plain_fraction",
+    )
     def isotope_hybrid_fractions(self, p):
         ret = p[0]
-        for node in p.isotope_fraction[1:]:
+        for node in p[1][1:]:
             ret.append(node)
+        return ret
+
+    @_("number_phrase number_phrase")
+    def plain_fraction(self, p):
+        """
+        A ZAID without a library and its fraction, after an isotope that has a library.
+        """
+        return p
+
+    @_(
+        "isotope_fractions plain_fraction",
+        "isotope_mixed_fractions plain_fraction",
+        "isotope_mixed_fractions isotope_fraction",
+    )
+    def isotope_mixed_fractions(self, p):
+        ret = p[0]
+        ret.append(p[1])
         return ret
